@@ -166,8 +166,10 @@ Section Ops.
             else
               match nfloor ((nofZ (Z.of_nat num) * (x - low)) / (high - low)) with
               | None => RErr
-              | Some i =>
-                  (* Python list indexing: negative indexes wrap, out of range raises *)
+              | Some i0 =>
+                  (* Bin.bin: min(floor(...), num - 1); then Python list indexing: negative
+                     indexes wrap, out of range raises *)
+                  let i := Z.min i0 (Z.of_nat num - 1) in
                   let i' := if (i <? 0)%Z then (i + Z.of_nat num)%Z else i in
                   if ((0 <=? i') && (i' <? Z.of_nat num))%Z
                   then RTo (only n (Z.to_nat i') w) None else RErr
